@@ -27,16 +27,18 @@ class ElementComposite(Element):
             if e.refdom is not self.elems[0].refdom:
                 raise ValueError("Elements are incompatible.")
 
+        # the names are listed in the order nodal, facet, edge, interior:
+        # this is how Dofs._dofnames_to_rows and DofsView read them
         dofnames = []
         for i, e in enumerate(self.elems):  # nodal
             for j in range(e.nodal_dofs):
                 dofnames.append(e.dofnames[j] + "^" + str(i + 1))
-        for i, e in enumerate(self.elems):  # edge
-            for j in range(e.nodal_dofs, e.nodal_dofs + e.edge_dofs):
-                dofnames.append(e.dofnames[j] + "^" + str(i + 1))
         for i, e in enumerate(self.elems):  # facet
-            for j in range(e.nodal_dofs + e.edge_dofs,
-                           e.nodal_dofs + e.edge_dofs + e.facet_dofs):
+            for j in range(e.nodal_dofs, e.nodal_dofs + e.facet_dofs):
+                dofnames.append(e.dofnames[j] + "^" + str(i + 1))
+        for i, e in enumerate(self.elems):  # edge
+            for j in range(e.nodal_dofs + e.facet_dofs,
+                           e.nodal_dofs + e.facet_dofs + e.edge_dofs):
                 dofnames.append(e.dofnames[j] + "^" + str(i + 1))
         for i, e in enumerate(self.elems):  # interior
             for j in range(e.nodal_dofs + e.edge_dofs + e.facet_dofs,
